@@ -497,18 +497,15 @@ def pty_stage(ctx, violations):
     fh = ["registers"]
     fkeys = [ch(c) for c in "echo qzv"] + [ENTER, UP, ENTER, UP, UP, DOWN, ENTER] + E + [ENTER]
     fm = ctx.run_model([case_line(0, 1, 0, fh, fkeys)], tag="c20full")[0]
-    want_echo = 0
-    for ln in fm:
-        o = parse_obs(ln)
-    # submitted commands accumulate in the observation lines: count in the last one
-    lasto = [parse_obs(x) for x in fm if parse_obs(x)]
-    if lasto:
-        want_echo = sum(1 for sub in lasto[-1]["subs"] if "".join(chr(c) for c in sub) == "echo qzv")
+    # each observation line lists what was submitted at that key
+    want_echo = sum(1 for x in fm for sub in ((parse_obs(x) or {}).get("subs") or []) if "".join(chr(c) for c in sub) == "echo qzv")
+    if want_echo != 3:
+        raise RuntimeError("C20 fault session: the model submits `echo qzv` %d times, 3 expected by design" % want_echo)
     got_echo = None
     for slow in (1.0, 3.0, 8.0):
         lines, status, text = pty_session(exe, work, "registers\n", fkeys, 900 + int(slow), slow=slow, history_file_full=True)
         # the echo command prints its argument on a line of its own (the typed text is drawn after the prompt, never alone)
-        got_echo = sum(1 for l in text.replace("\r", "").split("\n") if l.strip() == "qzv")
+        got_echo = sum(1 for l in text.replace("\r", "").split("\n") if l.strip() == "[qzv]")
         if status == 0 and got_echo == want_echo:
             break
     n += 1
